@@ -310,10 +310,12 @@ def canon_env(fn):
     return env
 
 
-def show_canon(fn, e, maxdepth=40, inline=6):
-    """`show` with rename-independent local names (see canon_env)."""
+def show_canon(fn, e, maxdepth=40, inline=6, inline_only=None):
+    """`show` with rename-independent local names (see canon_env). `inline_only`: set of local ids that may be inlined (others render as `v?`)."""
     global _CANON, _MAXDEPTH
     names, inits = canon_env(fn)
+    if inline_only is not None:
+        inits = dict((k, v) for k, v in inits.items() if k in inline_only)
     old, oldm = _CANON, _MAXDEPTH
     _CANON = [names, inits, inline, set()]
     _MAXDEPTH = maxdepth
